@@ -610,6 +610,17 @@ def runCase (e : SExp) : Array String :=
             (hs.map fun (f : Taxon × SL) => reportedAt false ta td f.1 none f.2).sum -
             (hs.map fun (f : Taxon × SL) => lineagesAt ta f.1 f.2).sum))
         else o
+      | SExp.list [SExp.atom "l", x, y] =>
+        -- lateral comparison: duplicated copies / retained genes per compared genome, from the histories (theorem
+        -- C08_lateral_counts_are_the_history)
+        let tx := decTaxon x
+        let ty := decTaxon y
+        let m := mrca2 tx ty
+        [tx, ty].foldl (fun (o : OutBuf) (g : Taxon) =>
+          if g == m || tx == ty then o else
+          o.put "hlat" (taxS tx ++ "," ++ taxS ty ++ ">" ++ taxS g ++ "=" ++
+            toString ((hs.map fun (f : Taxon × SL) => reportedAt true m g f.1 none f.2).sum) ++ "," ++
+            toString ((hs.map fun (f : Taxon × SL) => reportedAt false m g f.1 none f.2).sum))) o
       | _ => o) o
     o.lines.push (cid ++ "\tend\t")
   | _ => #["?\tbadcase\t"]
